@@ -90,7 +90,7 @@ def row_keys(N, full=True):
         ks.append(('np.array(%r)' % ([True] * (N + 1),), 'g'))
     else:
         ks += [('[0]', 'g'), ('[-1, 0]', 'g'), ('np.array(%r)' % ([True] + [False] * (N - 1),), 'g'),
-               (repr([False] + [True] * (N - 1)), 'g')]
+               (repr([False] + [True] * (N - 1)), 'g'), ('[]', 'g'), ('np.array(%r)' % ([False] * N,), 'g')]
     ks.append(('Ellipsis', 'g'))
     # an event position computed with NumPy (np.argmax, np.flatnonzero(...)[k]) is an integer too
     npi = ['np.int64(0)', 'np.intp(-1)', 'np.uint8(%d)' % (N - 1), 'np.int32(-%d)' % N, 'np.int16(%d)' % N, 'np.array([0, %d])[1]' % (N - 1)]
@@ -125,6 +125,7 @@ def col_keys(D, full=True):
                ('[%s, %s]' % (elems[0], elems[0]), 'g')]
         if D >= 3:
             ks.append(('[2, %r, 1]' % names[0], 'g'))
+        ks += [('[]', 'g'), ('()', 'g'), ('slice(%d,None,None)' % D, 'g')]
     ks.append(('Ellipsis', 'g'))
     # other forms NumPy accepts
     other = []
@@ -468,6 +469,24 @@ def reduced_alphabet(N, D):
     return out
 
 
+def empty_alphabet(N, D):
+    """keys for a sample without events or without channels (everything was deselected by an earlier step): such a sample is still a
+    sample, and indexing it again gives a sample with the matching (empty) metadata"""
+    rows = row_keys(N, full=False) if N > 0 else [(k_, 'g') for k_ in (
+        'slice(None,None,None)', '[]', 'slice(None,None,-1)', 'Ellipsis', '0', 'slice(3,9,None)', 'np.zeros(0, dtype=bool)', '-1')]
+    cols = col_keys(D, full=False) if D > 0 else [(k_, 'g') for k_ in (
+        'slice(None,None,None)', '[]', 'slice(None,None,-2)', 'Ellipsis', 'slice(0,1,None)', '0', "'CH1'", '()', "['CH1']")] + [('np.zeros(0, dtype=bool)', 'o')]
+    ks = [('(%s, %s)' % (r, c), 'o' if 'o' in (rc, cc) else 'g') for r, rc in rows for c, cc in cols]
+    ks += list(rows)
+    ks += [('(Ellipsis, slice(None,None,None))', 'g'), ('()', 'o'), ('None', 'o')]
+    seen, out = set(), []
+    for k in ks:
+        if k[0] not in seen:
+            seen.add(k[0])
+            out.append(k)
+    return out
+
+
 def full_alphabet(N, D, rows=None):
     for r, rc in (rows or row_keys(N)):
         for c, cc in col_keys(D):
@@ -525,7 +544,9 @@ def run_case(c):
         def events(state, depth):
             d, m = state
             n_, d_ = m.vals.shape
-            if k == 'depth2-full' and depth >= 0 and len(roots[0]) + depth >= 1:
+            if n_ == 0 or d_ == 0:
+                al = empty_alphabet(n_, d_)
+            elif k == 'depth2-full' and depth >= 0 and len(roots[0]) + depth >= 1:
                 al = list(full_alphabet(n_, d_))
             else:
                 al = reduced_alphabet(n_, d_)
@@ -547,7 +568,7 @@ def run_case(c):
 
         def expandable(state):
             d, m = state
-            return m.vals.ndim == 2 and m.vals.shape[0] > 0 and m.vals.shape[1] > 0 and isinstance(d, FlowCal.io.FCSData)
+            return m.vals.ndim == 2 and isinstance(d, FlowCal.io.FCSData)
 
         roots = [()] if k == 'chain' else [(c['first'],)]
         if k == 'depth2-full':
